@@ -346,6 +346,21 @@ func cancelIdempotent(c *an.Ctx, r *runnerRoles, rule string) {
 			if an.FieldProv(v) == resolveRunnerState(p).canceling && (gd.Outcome != neg) == false {
 				return true
 			}
+			// the same question put to the runner's context itself: ctx.Err() == nil holds until cancelFunc, which
+			// only runs under this guard and the exclusive lock, has been called
+			if bo, ok := v.(*ssa.BinOp); ok && (bo.Op == token.EQL || bo.Op == token.NEQ) {
+				x, y := bo.X, bo.Y
+				if an.IsNilConst(x) {
+					x, y = y, x
+				}
+				if call, ok := x.(*ssa.Call); ok && an.IsNilConst(y) && call.Call.IsInvoke() && call.Call.Method.Name() == "Err" &&
+					an.FieldProv(call.Call.Value) == resolveRunnerState(p).ctx {
+					notCancelled := (bo.Op == token.EQL) == (gd.Outcome != neg)
+					if notCancelled {
+						return true
+					}
+				}
+			}
 		}
 		g := in.Parent()
 		if g == f || depth == 0 {
